@@ -30,7 +30,6 @@ LossBreakdown = namedtuple('LossBreakdown', ['per_sample_entropy', 'batch_entrop
 
 # distributed helpers
 
-@cache
 def is_distributed():
     return dist.is_initialized() and dist.get_world_size() > 1
 
